@@ -1,10 +1,16 @@
 //! Free-running stress of streaming bodies: producer and consumer on real threads with no baton.
 //!
-//! The baton scheduler explores interleavings at hooked sites only.  This mode complements it for
-//! lock / wake sites that carry no yield point (e.g. introduced by a later change).  Detection is
-//! logical, not timing based: once the producer thread has *finished*, a consumer that is parked
-//! without having been woken, while the Probe shows something deliverable, can never be woken any
-//! more -- a lost wake-up.  No verdict depends on a timeout.
+//! The baton scheduler explores interleavings at hooked sites only and never makes a lock
+//! *contended*.  This mode complements it: real contention, lock/wake sites without yield point.
+//! Every recorded fact is decided by a logical condition, never by a timeout:
+//!   stuck          the producer thread has finished, the consumer is parked and was never woken,
+//!                  and the Probe shows something deliverable: nobody can wake it any more
+//!   mismatch       clean end with bytes != accepted bytes, clean end after abort, error without abort
+//!   flush_private  flush() returned Ok and the writer's private buffer is not empty
+//!   write_zero     write(non-empty) on a writer that never failed returned Ok(0)
+//!   ok_after_drop  the producer observed (SeqCst) that the body had been dropped, then a flush of
+//!                  buffered bytes / a chunk-publishing write still returned Ok
+//!   eos_then_more  is_end_stream() returned true and a later poll delivered data or an error
 
 use bytes::{Buf, Bytes};
 use http_body::Body as _;
@@ -34,73 +40,134 @@ impl Wake for SigWaker {
     }
 }
 
+#[derive(Default)]
+struct PFacts {
+    flush_private: u64,
+    write_zero: u64,
+    ok_after_drop: u64,
+    panicked: bool,
+}
+
 pub fn run_stress(case: &Value) -> Value {
     let cap = case["cap"].as_u64().unwrap_or(4) as usize;
     let iters = case["stress"].as_u64().unwrap_or(100);
+    let cdrop = case["cdrop"].as_bool().unwrap_or(false);
     let prog: Vec<(String, u64)> = case["prog"]
         .as_array()
         .map(|a| a.iter().map(|o| (o[0].as_str().unwrap_or("").to_string(), o[1].as_u64().unwrap_or(0))).collect())
         .unwrap_or_default();
     let (mut stuck, mut mismatch, mut panics, mut clean, mut errors) = (0u64, 0u64, 0u64, 0u64, 0u64);
+    let (mut flush_private, mut write_zero, mut ok_after_drop, mut eos_then_more) = (0u64, 0u64, 0u64, 0u64);
     for it in 0..iters {
         let req = http::Request::builder().uri("/").body(()).unwrap();
         let (resp, writer) = http_serve::streaming_body(&req).with_chunk_size(cap).build::<Bytes, BoxError>();
         let Some(mut w) = writer else { continue };
-        let mut body = Box::pin(resp.into_body());
-        let probe = body.verif_probe().unwrap();
+        let mut body = Some(Box::pin(resp.into_body()));
+        let probe = body.as_ref().unwrap().verif_probe().unwrap();
         let sig = Arc::new(Sig { m: Mutex::new((false, false)), cv: Condvar::new() });
         let wakers = [Waker::from(Arc::new(SigWaker(sig.clone()))), Waker::from(Arc::new(SigWaker(sig.clone())))];
         let accepted = Arc::new(AtomicUsize::new(0));
         let aborted = Arc::new(AtomicBool::new(false));
-        let (acc2, ab2, sig2, prog2) = (accepted.clone(), aborted.clone(), sig.clone(), prog.clone());
+        let cdropped = Arc::new(AtomicBool::new(false));
+        let (acc2, ab2, sig2, prog2, cd2) = (accepted.clone(), aborted.clone(), sig.clone(), prog.clone(), cdropped.clone());
         let h = std::thread::spawn(move || {
-            let ok = std::panic::catch_unwind(std::panic::AssertUnwindSafe(|| {
+            let mut f = PFacts::default();
+            let r = std::panic::catch_unwind(std::panic::AssertUnwindSafe(|| {
                 let mut pos = 0u64;
+                let mut failed = false;
+                let mut f = PFacts::default();
                 for (op, n) in &prog2 {
+                    let gone = cd2.load(Ordering::SeqCst);
+                    let before = w.verif_buffered().map(|b| b as i64).unwrap_or(-1);
                     match op.as_str() {
                         "write" => {
                             let data: Vec<u8> = (0..*n).map(|i| ((pos + i) % 251) as u8).collect();
-                            if let Ok(k) = w.write(&data) {
-                                pos += k as u64;
-                                acc2.fetch_add(k, Ordering::SeqCst);
+                            match w.write(&data) {
+                                Ok(k) => {
+                                    pos += k as u64;
+                                    acc2.fetch_add(k, Ordering::SeqCst);
+                                    if k == 0 && *n > 0 && !failed && !gone {
+                                        f.write_zero += 1;
+                                    }
+                                    let after = w.verif_buffered().map(|b| b as i64).unwrap_or(-1);
+                                    if gone && before >= 0 && after != before + k as i64 {
+                                        f.ok_after_drop += 1; // published a chunk into a dropped body
+                                    }
+                                }
+                                Err(_) => failed = true,
                             }
                         }
-                        "flush" => {
-                            let _ = w.flush();
-                        }
+                        "flush" => match w.flush() {
+                            Ok(()) => {
+                                if w.verif_buffered().unwrap_or(0) > 0 {
+                                    f.flush_private += 1;
+                                }
+                                if gone && before > 0 {
+                                    f.ok_after_drop += 1;
+                                }
+                            }
+                            Err(_) => failed = true,
+                        },
                         "abort" => {
                             ab2.store(true, Ordering::SeqCst);
                             w.abort("aborted by harness".into());
+                            failed = true;
                         }
                         "wait" => std::thread::yield_now(),
                         _ => {}
                     }
                 }
                 drop(w);
-            }))
-            .is_ok();
+                f
+            }));
+            match r {
+                Ok(x) => f = x,
+                Err(_) => f.panicked = true,
+            }
             let mut g = sig2.m.lock().unwrap();
             g.1 = true;
             sig2.cv.notify_all();
-            ok
+            f
         });
         let mut delivered: Vec<u8> = Vec::new();
         let mut polls = 0u64;
+        let mut eos_said = false;
+        let drop_at = if cdrop { 1 + (it % 5) } else { u64::MAX };
         let outcome = loop {
             polls += 1;
             if polls > 100_000 {
                 break "maxpolls";
             }
+            if polls == drop_at {
+                drop(body.take());
+                cdropped.store(true, Ordering::SeqCst);
+                break "dropped";
+            }
+            let b = body.as_mut().unwrap();
+            if (it + polls) % 3 == 0 {
+                match std::panic::catch_unwind(std::panic::AssertUnwindSafe(|| (b.is_end_stream(), b.size_hint()))) {
+                    Ok((e, _)) => eos_said = eos_said || e,
+                    Err(_) => break "panic",
+                }
+            }
             sig.m.lock().unwrap().0 = false;
             let mut cx = Context::from_waker(&wakers[(polls % 2) as usize]);
-            match std::panic::catch_unwind(std::panic::AssertUnwindSafe(|| Pin::as_mut(&mut body).poll_frame(&mut cx))) {
+            match std::panic::catch_unwind(std::panic::AssertUnwindSafe(|| Pin::as_mut(b).poll_frame(&mut cx))) {
                 Err(_) => break "panic",
                 Ok(Poll::Ready(None)) => break "end",
-                Ok(Poll::Ready(Some(Err(_)))) => break "err",
+                Ok(Poll::Ready(Some(Err(_)))) => {
+                    if eos_said {
+                        eos_then_more += 1;
+                    }
+                    break "err";
+                }
                 Ok(Poll::Ready(Some(Ok(f)))) => {
                     if let Ok(mut d) = f.into_data() {
                         let mut v = vec![0u8; d.remaining()];
                         d.copy_to_slice(&mut v);
+                        if eos_said && !v.is_empty() {
+                            eos_then_more += 1;
+                        }
                         delivered.extend_from_slice(&v);
                     }
                 }
@@ -118,41 +185,44 @@ pub fn run_stress(case: &Value) -> Value {
                         drop(g);
                         let s = probe.snapshot(&[]);
                         let deliverable = s.state == "err" || (s.state == "ok" && (!s.ready.is_empty() || s.writer_dropped));
-                        if deliverable {
-                            break "stuck";
-                        }
-                        break "idle";
+                        break if deliverable { "stuck" } else { "idle" };
                     }
                 }
             }
         };
-        let pok = h.join().unwrap_or(false);
-        if !pok {
+        let pf = h.join().unwrap_or_else(|_| PFacts { panicked: true, ..Default::default() });
+        if pf.panicked {
             panics += 1;
         }
+        flush_private += pf.flush_private;
+        write_zero += pf.write_zero;
+        ok_after_drop += pf.ok_after_drop;
         match outcome {
-            "stuck" | "maxpolls" => stuck += 1,
+            "stuck" | "maxpolls" | "idle" => stuck += 1,
             "panic" => panics += 1,
+            "dropped" => {
+                // the queue must have been released
+                if !probe.snapshot(&[]).ready.is_empty() {
+                    ok_after_drop += 1;
+                }
+            }
             "end" => {
                 clean += 1;
                 let acc = accepted.load(Ordering::SeqCst);
                 let want: Vec<u8> = (0..acc as u64).map(|i| (i % 251) as u8).collect();
-                if !aborted.load(Ordering::SeqCst) && delivered != want {
+                if aborted.load(Ordering::SeqCst) || delivered != want {
                     mismatch += 1;
                 }
-                if aborted.load(Ordering::SeqCst) {
-                    mismatch += 1; // abort must never end cleanly
-                }
             }
-            "err" => {
+            _ => {
                 errors += 1;
                 if !aborted.load(Ordering::SeqCst) {
                     mismatch += 1;
                 }
             }
-            _ => stuck += 1, // idle: writer gone but nothing deliverable and no terminal event
         }
     }
     json!({"ev": "stress", "case": case["id"], "iters": iters, "stuck": stuck, "mismatch": mismatch, "panics": panics,
-           "clean": clean, "errors": errors})
+           "clean": clean, "errors": errors, "flush_private": flush_private, "write_zero": write_zero,
+           "ok_after_drop": ok_after_drop, "eos_then_more": eos_then_more})
 }
